@@ -16,9 +16,10 @@ import time
 
 
 class Worker:
-    def __init__(self, binary, env=None):
+    def __init__(self, binary, env=None, prefix=None):
         self.binary = binary
         self.env = env
+        self.prefix = prefix or []
         self.proc = None
         self.buf = b""
         self.start()
@@ -27,7 +28,7 @@ class Worker:
         e = dict(os.environ)
         if self.env:
             e.update(self.env)
-        self.proc = subprocess.Popen([self.binary, "worker"], stdin=subprocess.PIPE, stdout=subprocess.PIPE,
+        self.proc = subprocess.Popen(self.prefix + [self.binary, "worker"], stdin=subprocess.PIPE, stdout=subprocess.PIPE,
                                      stderr=subprocess.DEVNULL, env=e, bufsize=0)
         self.buf = b""
 
